@@ -146,7 +146,11 @@ void h_transmit(void)
   for (i = 0; i < NM; i++) cost += s->u.s.length[gt][mtfv[i]];
   ASSUME(cost % 8 == 0);
   s->out_expect_len = cost / 8;
-  ASSUME(cost / 8 + 4 <= 4 * OUTW);
+  ASSUME(cost / 8 + 12 <= 4 * OUTW);                             /* leaves the two guard words behind the block inside OUT[] */
+
+  /* compress.c do_transmit() allocates (size + 3) / 4 words for the block: everything behind them must stay untouched */
+  unsigned words = (cost / 8 + 3) / 4;
+  for (i = 0; i < OUTW; i++) OUT[i] = 0xA5A5A5A5u;
 
   void *rv = transmit(s, OUT);
 
@@ -212,7 +216,9 @@ void h_transmit(void)
 #endif
   PROP(pos == cost, "the block ends where the announced size says");
   PROP(pos % 8 == 0, "a block is a whole number of bytes");
-  PROP(rd(pos, 24) == 0, "padding after the last byte is zero");
+  PROP(rd(pos, 32 * words - pos) == 0, "padding up to the end of the last word is zero");
+  PROP(OUT[words] == 0xA5A5A5A5u && OUT[words + 1] == 0xA5A5A5A5u, "transmit() writes exactly the (size + 3) / 4 words that compress.c allocates for the block (C08)");
+  if (cost % 32 == 0) WITNESS("size_multiple_of_4"); else WITNESS("size_not_multiple_of_4");
   WITNESS("inspected");
 }
 
